@@ -14,7 +14,7 @@ REQUIRED_FEATURES = ["boundaries_coincide", "boundaries_interleave", "boundaries
                      "histogram", "concatenate", "reduction", "reduction_of_unjoined_array", "same_left_operand_sequence", "close_values_beyond_2**53", "nan_operands"]
 BOUNDS = {"quick": "all pairs of arrays L<=3 over 3 values x all pairs of {bool,int8,int64,uint8,float64} x 13 binary ufuncs; L=4 for int64 x int64 (5 ufuncs); "
                    "scalars {2, 2.5, True, np.int8(3), np.float32(1.5)} both sides x 13 ufuncs, 6 unary ufuncs, sum/any/all/max/mean, histogram (1-4 bins, with range), "
-                   "concatenate of 2-3 arrays, for all arrays L<=4",
+                   "concatenate of 2-3 arrays, for all arrays L<=4; int64 / uint64 neighbours beyond 2**53; NaN / inf operands; close floats; histogram with default bins and with density; reductions of unjoined arrays; sequences on one left operand incl. in-place",
           "thorough": "pairs L<=4 all dtype pairs, L<=5 for int64/float64/bool; singles L<=6"}
 BINARY = ["add", "subtract", "multiply", "maximum", "minimum", "equal", "less", "bitwise_and", "bitwise_xor", "logical_and", "logical_or", "floor_divide", "true_divide"]
 UNARY = ["negative", "absolute", "invert", "logical_not", "square", "sign"]
